@@ -917,6 +917,14 @@ def main(argv=None):
     for _ in range(max(5, args.n // 40)):
         failures += ["registry: " + p for p in check_registry_history(m, gen_history(rng))]
         nh += 1
+    # setup_matches_generated, as an exhaustive executable check (too big for the kernel):
+    # model setup over the generated facts == the generated REAL Base.subclasses
+    rc = m.ask("regcheck")
+    if rc[0] != "1" or rc[1] != "1":
+        failures.append("registry: setup(members std) over the generated facts differs from the "
+                        "generated real Base.subclasses: f2003 %s f2008 %s" % (rc[0], rc[1]))
+    stats["setup_matches_generated"] = "f2003 %s (%s rules)  f2008 %s (%s rules)" % (
+        "ok" if rc[0] == "1" else "FAIL", rc[2], "ok" if rc[1] == "1" else "FAIL", rc[3])
     stats["registry_histories"] = nh
     ParserFactory().create(std="f2003")
     from fparser.two.utils import Base
